@@ -115,11 +115,24 @@ func (s *S) Call(th, op, o string, args []interface{}, fn func() []interface{}) 
 	go func() {
 		defer s.wg.Done()
 		out := fn()
+		s.Rec.Emit("ret", append([]interface{}{"th", th, "op", op, "o", o}, out...)...)
 		s.mu.Lock()
 		delete(s.pending, th)
 		s.mu.Unlock()
-		s.Rec.Emit("ret", append([]interface{}{"th", th, "op", op, "o", o}, out...)...)
 	}()
+}
+
+// Thread returns the name of a client thread that has no call in progress
+// (the lowest numbered one), so that traces use a small fixed set of names.
+func (s *S) Thread() string {
+	s.mu.Lock()
+	defer s.mu.Unlock()
+	for i := 1; ; i++ {
+		n := fmt.Sprintf("T%d", i)
+		if !s.pending[n] {
+			return n
+		}
+	}
 }
 
 // Busy reports whether client thread th has a call in progress.
